@@ -191,6 +191,7 @@ func runC17(e *Env) {
 			}
 			body := rec.Body.String()
 			status := rec.Status()
+			t.Tracef("%s -> status %d body %q", cur, status, truncate(body, 60))
 			if strings.Contains(body, c17Canary) {
 				t.Fail("outside-content-served", "%s on %s(%s, root %s): the response (status %d) contains bytes of a file outside the root: %q", cur, kind, prefix, tree.Root, status, truncate(body, 120))
 				return
